@@ -21,7 +21,8 @@ RULE = ("case = (functional, method, backward-solve method, representation kind,
 RULE_ADDED = ('Added later: kinds with dependent / repeated / reversed-declaration parameters (pure_dep, em_dep, pu'
               're_twice, em_twice, multi3, em_dict_rev), list-state solve_ivp. Round 4: kinds em_pexp (object tenso'
               'r of f next to explicit parameters of log p) and em_cplx (object also holds complex / integer tensor'
-              's).')
+              's). Round 5: kinds both / both_rev (a class deriving from torch.nn.Module and EditableModule, in eit'
+              'her order, declaring a derived non-Parameter tensor next to a registered Parameter).')
 ASSUMPTIONS = [
     "leaves a, b, p are float64 vectors of length 2 from a fixed alphabet (plane 0) or from boxes a in [0.6,1], "
     "b in [-0.4,0.4], p in [0.3,0.7] selected by VERIF_SEED (thorough planes 1..2); the functions are contractions / "
@@ -47,7 +48,7 @@ TOL = 1e-10
 DEP_KINDS = ["pure_dep", "em_dep"]
 # pure_twice / em_twice: the same tensor object supplied at two positions (twice explicitly; held by the object
 # and passed explicitly); multi3: a sibling of three methods of three objects
-MORE_KINDS = ["pure_twice", "em_twice", "multi3", "em_dict_rev", "em_pexp"]
+MORE_KINDS = ["pure_twice", "em_twice", "multi3", "em_dict_rev", "em_pexp", "both", "both_rev"]
 KINDS = [k for k in F.ALL_KINDS if k != "pure"] + DEP_KINDS + MORE_KINDS
 FUNCS = F.FUNCTIONALS + ["jac_solve"]
 
@@ -160,7 +161,7 @@ def run_case(cfg):
     import xitorch
     xitorch.set_debug_mode(False)
     base = cfg["kind"][4:] if cfg["kind"].startswith("sib:") else cfg["kind"]
-    refkind = "pure_derived" if base == "em_derived" else ("pure_depref" if base in DEP_KINDS else "pure")
+    refkind = "pure_derived" if base in ("em_derived", "both", "both_rev") else ("pure_depref" if base in DEP_KINDS else "pure")
     ref = _reference(refkind, cfg)
     if ref["exc"] is not None or ref["stage"] is not None or not (_finite(ref["out"]) and _finite(ref["g1"])
                                                                     and _finite(ref["g2"])):
